@@ -1068,17 +1068,26 @@ def vc_abs(x):
 
 def vc_round(x, n=None):
     if isinstance(x, SV):
-        raise Undecided("round() of symbolic value")
+        return x.__round__(n)
     return round(x) if n is None else round(x, n)
 
 
-_TYPE_BACK = {vc_int: int, vc_float: float, vc_complex: complex, vc_list: list, vc_tuple: tuple, vc_range: range}
+class vc_str(str):
+    """str(x): a symbolic number becomes a token (sym.sv_token); everything else is the builtin"""
+    def __new__(cls, *a, **k):
+        if len(a) == 1 and not k and isinstance(a[0], SV):
+            from .sym import sv_token
+            return sv_token(a[0])
+        return str(*a, **k)
+
+
+_TYPE_BACK = {vc_str: str, vc_int: int, vc_float: float, vc_complex: complex, vc_list: list, vc_tuple: tuple, vc_range: range}
 
 VC_BUILTINS = {
     "len": vc_len, "range": vc_range, "list": vc_list, "tuple": vc_tuple, "enumerate": vc_enumerate,
     "isinstance": vc_isinstance, "int": vc_int, "float": vc_float, "complex": vc_complex,
     "zip": vc_zip, "all": vc_all, "any": vc_any,
-    "sum": vc_sum, "min": vc_min, "max": vc_max, "sorted": vc_sorted, "print": vc_print, "round": vc_round,
+    "sum": vc_sum, "min": vc_min, "max": vc_max, "sorted": vc_sorted, "print": vc_print, "round": vc_round, "str": vc_str,
 }
 
 
